@@ -772,12 +772,26 @@ fn evaluate_case(
             Some(else_val) => {
                 // Coerce types if they differ (e.g., Int64 ELSE vs Float64 THEN)
                 let (then_arr, else_arr) = if then_value.data_type() != else_val.data_type() {
-                    let target = if then_value.data_type() == &arrow::datatypes::DataType::Float64
-                        || else_val.data_type() == &arrow::datatypes::DataType::Float64
+                    // Same unification as the planner's CASE result type:
+                    // integer with float is Float64, two integer widths are
+                    // Int64 (casting the Int64 branch DOWN to the other
+                    // branch's Int32 nulled every value that did not fit and
+                    // returned Int32 batches under an Int64 schema).
+                    use arrow::datatypes::DataType as T;
+                    let is_int = |t: &T| matches!(t, T::Int8 | T::Int16 | T::Int32 | T::Int64);
+                    let is_float = |t: &T| matches!(t, T::Float32 | T::Float64);
+                    let (a, b) = (then_value.data_type(), else_val.data_type());
+                    let target = if (is_int(a) || is_float(a))
+                        && (is_int(b) || is_float(b))
+                        && (is_float(a) || is_float(b))
                     {
-                        arrow::datatypes::DataType::Float64
+                        T::Float64
+                    } else if is_int(a) && is_int(b) {
+                        T::Int64
+                    } else if matches!(a, T::Null) {
+                        b.clone()
                     } else {
-                        then_value.data_type().clone()
+                        a.clone()
                     };
                     (
                         arrow::compute::cast(&then_value, &target)?,
